@@ -117,6 +117,18 @@ CLAIMS['C13'] = dict(
          'the periodic range.',
     technique='interval abstract interpretation with rounding, exact normal-form comparison against an argument-map table, index/loop agreement')
 
+CLAIMS['C03'] = dict(
+    text='Decides structural necessary conditions on the five passive models: every sampled density or temperature entering a '
+         'radiance term as a factor or rate argument is positive wherever that term is accumulated (early return of the untouched '
+         'spectrum or a positivity condition around the accumulation; a guard on a sum counts for that sum) -- the zero / '
+         'non-negative clause; the radiance normal forms are the documented expressions with each leaf sampled from the '
+         'documented distribution ((1/4pi) PEC ne ni; (1/4pi) n_rec sum_d n_d PEC_d(ne,Te,T_d); (1/4pi)(plt ne ni + prb ne ni+ + '
+         'prc nH ni+)/(max-min) added to every bin; the Hutchinson free-free prefactor and its average over consecutive bin '
+         'edges), from which linearity in each density is read off; species and rate selection in _populate_cache; BREMS_CONST, '
+         'EXP_FACTOR and the physical constants fold to the documented formula with independent CODATA values (rel. 1e-6). Does '
+         'not decide the Gauss-Legendre bin average, Gaunt-factor tables or any numeric total.',
+    technique='guard dominance per radiance term, exact rational normal forms of radiance expressions, call-argument provenance, constant folding against reference values')
+
 # ---- everything not claimed above is pending / not applicable
 _pending = 'check not built yet in this session (see DESIGN.md build order); not claimed until it is'
 for _p in ['C%02d' % i for i in range(1, 21)]:
